@@ -606,6 +606,25 @@ func (fc *FnCtx) mergeStates(c string, a, b *State) *State {
 		}
 		out.locks[k] = tIte(c, la, lb)
 	}
+	if a.nbLocks != nil || b.nbLocks != nil {
+		m := map[string]string{}
+		for k, v := range a.nbLocks {
+			m[k] = v
+		}
+		for k := range b.nbLocks {
+			if _, ok := m[k]; !ok {
+				m[k] = "false"
+			}
+		}
+		for k, la := range m {
+			lb, ok := b.nbLocks[k]
+			if !ok {
+				lb = "false"
+			}
+			m[k] = tIte(c, la, lb)
+		}
+		out.nbLocks = m
+	}
 	if b.lockSnap != nil {
 		if out.lockSnap == nil {
 			out.lockSnap = map[string]*State{}
